@@ -17,7 +17,7 @@ FUNCTIONS = ["FlodymArray.validate_values", "FlodymArray._check_value_format", "
              "Stock.validate_stock_arrays", "Stock.validate_time_first_dim", "DynamicStockModel.init_lifetime_model", "DimensionSet.no_repeated_dimensions"]
 ASSUMPTIONS = ["direct attribute overwrites and shape-changing apply() callbacks are outside the documented contract (excluded by the property)"]
 OUTSIDE = ["dtype-dependent behaviour (object dtype throughout)", "histories longer than 3 calls (covered by the inductive step over arbitrary values, not by enumeration)"]
-VARIANTS = 'one dimension asked for twice; DSM time-not-first; same-letter operands of other lengths; to_stock_type; wrong-shaped ndarrays into zero-dimensional arrays'
+VARIANTS = 'the caller\'s DimensionSet read, edited in place, then used to build an array (dims_edited); stock dimensions whose items coincide only after a cast; one dimension asked for twice; DSM time-not-first; same-letter operands of other lengths; to_stock_type; wrong-shaped ndarrays into zero-dimensional arrays'
 BOUNDS = {"quick": dict(calls="every catalogue operation, every ill-formed call, every ill-formed stock / lifetime-model construction", histories="every ordered pair (ill-formed call, catalogue operation) on one state (structured third)"),
           "thorough": dict(calls="as quick", histories="all pairs and a structured subset of triples")}
 for _t in BOUNDS.values():
@@ -37,6 +37,11 @@ def configs(tier, seed):
         out.append(dict(h="bad", op=n, key=f"bad/{n}", name=n))
     for n in ops.bad_stock_calls():
         out.append(dict(h="bad_stock", op=n, key=f"bad_stock/{n}", name=n))
+    # the caller's own DimensionSet read (shape, total size, an array or a stock built on it), then edited in place,
+    # then used to build an array: the array has the shape of the set as it is now
+    for read in ("shape", "total_size", "size", "array_built", "stock_built", "copy", "nothing"):
+        for edit in DIMS_EDITS:
+            out.append(dict(h="dims_edited", op=edit, key=f"dims_edited/read={read}/{edit}", read=read, edit=edit))
     bads = list(ops.bad_calls())
     goods = list(ops.catalogue())
     pairs = list(itertools.product(bads, goods))
@@ -49,6 +54,61 @@ def configs(tier, seed):
         for b1, b2, g in trip:
             out.append(dict(h="history", op="hist3", key=f"history/{b1}>{b2}>{g}", seq=[("bad", b1), ("bad", b2), ("good", g)]))
     return out
+
+
+DIMS_EDITS = ["append", "prepend", "insert", "expand_by", "extend", "drop", "replace_longer", "expand_by_then_drop"]
+
+
+def _dims_edited(cfg, w):
+    from flodym import FlodymArray, StockArray, Dimension, DimensionSet
+    from flodym.stocks import SimpleFlowDrivenStock
+
+    t = Dimension(name="Time", letter="t", items=[2000, 2001, 2003], dtype=int)
+    a = Dimension(name="Alpha", letter="a", items=["a1", "a2"])
+    b = Dimension(name="Beta", letter="b", items=["b1", "b2", "b3", "b4"])
+    c = Dimension(name="Gamma", letter="c", items=["c1", "c2", "c3", "c4", "c5"])
+    ds = DimensionSet(dim_list=[t, a])
+    read = cfg["read"]
+    if read == "shape":
+        w.ob("shape_before", tuple(ds.shape) == (3, 2))
+    elif read == "total_size":
+        w.ob("total_size_before", int(ds.total_size) == 6)
+    elif read == "size":
+        w.ob("size_before", ds.size("a") == 2 and ds.size("Time") == 3)
+    elif read == "array_built":
+        x0 = FlodymArray(dims=ds, values=w.arr("x0", (3, 2)))
+        w.ob("array_before", tuple(x0.values.shape) == (3, 2))
+    elif read == "stock_built":
+        SimpleFlowDrivenStock(dims=ds, inflow=StockArray(dims=ds, values=w.arr("in0", (3, 2))))
+    elif read == "copy":
+        ds.copy()
+    e = cfg["edit"]
+    {"append": lambda: ds.append(b, inplace=True), "prepend": lambda: ds.prepend(b, inplace=True), "insert": lambda: ds.insert(1, b, inplace=True),
+     "expand_by": lambda: ds.expand_by([b, c], inplace=True), "extend": lambda: ds.extend([b], inplace=True), "drop": lambda: ds.drop("a", inplace=True),
+     "replace_longer": lambda: ds.replace("a", c, inplace=True),
+     "expand_by_then_drop": lambda: (ds.expand_by([b], inplace=True), ds.drop("t", inplace=True))}[e]()
+    want = {"append": [t, a, b], "prepend": [b, t, a], "insert": [t, b, a], "expand_by": [t, a, b, c], "extend": [t, a, b], "drop": [t],
+            "replace_longer": [t, c], "expand_by_then_drop": [a, b]}[e]
+    shape = tuple(len(d.items) for d in want)
+    w.ob("edited_set:letters", tuple(ds.letters) == tuple(d.letter for d in want))
+    w.ob("edited_set:shape", tuple(ds.shape) == shape, info=f"{tuple(ds.shape)} want {shape}")
+    w.ob("edited_set:total_size", int(ds.total_size) == int(np.prod(shape)))
+    w.ob("edited_set:sizes", all(ds.size(d.letter) == len(d.items) for d in want))
+    w.ob("copy_of_edited_set:shape", tuple(ds.copy().shape) == shape)
+    z = FlodymArray(dims=ds)
+    w.ob("array_on_edited_set:zeros_have_the_shape_of_the_items", tuple(np.shape(z.values)) == shape, info=f"{np.shape(z.values)} want {shape}")
+    V = w.arr("v", shape)
+    try:
+        y = FlodymArray(dims=ds, values=V.copy())
+        w.ob("array_on_edited_set:right_shape_accepted", tuple(np.shape(y.values)) == shape)
+        w.ob_arr_eq("array_on_edited_set:values", y.values, V)
+    except Exception as ex:
+        w.ob("array_on_edited_set:right_shape_accepted", False, info=f"{type(ex).__name__}: {str(ex)[:120]}")
+    try:
+        FlodymArray(dims=ds, values=w.arr("stale", (3, 2)))
+        w.ob("array_on_edited_set:old_shape_rejected", False, info="accepted")
+    except Exception:
+        w.ob("array_on_edited_set:old_shape_rejected", True)
 
 
 def shim_plan(cfg):
@@ -79,6 +139,8 @@ def all_invariants(w, tag, E, results=()):
 
 
 def run(cfg, w):
+    if cfg["h"] == "dims_edited":
+        return _dims_edited(cfg, w)
     E = ops.Env(w)
     cat = {**ops.catalogue(), **ops.system_ops()}
     bad = {**ops.bad_calls(), **ops.bad_stock_calls()}
